@@ -58,6 +58,8 @@ def gen_cases(rng, tier, info):
         h.reopen(); h.flush(); h.raw()
         G.REP = None
         cases.append(Case("wf-%d%s" % (j, "-cp%d" % sb if sb else ""), h.cmds))
+    for name, h in G.scenario_histories(rng, raw=True):
+        cases.append(Case("scn-" + name, h.cmds))
     # packages WITHOUT a _Validation table (foreign files): dropping a table must still remove its _Tables / _Columns rows
     # and release their strings
     import msienc
